@@ -9,7 +9,7 @@ files = []
 try:
     for i in range(0, len(triples), 3):
         f, old, new = triples[i:i+3]
-        p = os.path.join('/repo', f)
+        p = os.path.join(os.environ.get('VERIF_REPO','/repo'), f)
         s = open(p).read()
         if old.startswith('ALL:'):
             old = old[4:]
@@ -20,10 +20,10 @@ try:
             s = s.replace(old, new)
         open(p, 'w').write(s)
         files.append(f)
-    d = subprocess.run(['git', '-C', '/repo', 'diff', '--'] + files, capture_output=True, text=True).stdout
+    d = subprocess.run(['git', '-C', os.environ.get('VERIF_REPO','/repo'), 'diff', '--'] + files, capture_output=True, text=True).stdout
     assert d.strip()
-    os.makedirs(f'/verif/mutants/{id_}', exist_ok=True)
-    open(f'/verif/mutants/{id_}/{name}.diff', 'w').write(d)
+    os.makedirs(os.environ.get('VERIF_ROOT','/verif')+f'/mutants/{id_}', exist_ok=True)
+    open(os.environ.get('VERIF_ROOT','/verif')+f'/mutants/{id_}/{name}.diff', 'w').write(d)
     print(f'wrote mutants/{id_}/{name}.diff ({len(d.splitlines())} lines)')
 finally:
-    subprocess.run(['git', '-C', '/repo', 'checkout', '--'] + files)
+    subprocess.run(['git', '-C', os.environ.get('VERIF_REPO','/repo'), 'checkout', '--'] + files)
